@@ -101,6 +101,8 @@ pub struct MgrState {
     pub evicted: u64,
     /// memo of the sizing probe, by term address
     pub sized: HashMap<usize, Option<usize>>,
+    /// terms already given the bounded-liveness probe
+    pub deep_done: std::collections::HashSet<usize>,
 }
 
 pub struct World<'t> {
@@ -210,6 +212,7 @@ fn run_inner(trace: &Trace, cfg: &Config) -> Outcome {
             id2ptr: HashMap::new(),
             evicted: 0,
             sized: HashMap::new(),
+            deep_done: std::collections::HashSet::new(),
         });
     }
     w.out.obs = vec![Vec::new(); trace.clients.len()];
